@@ -229,7 +229,29 @@ func runC11(r *core.Run) int {
 			}(g)
 		}
 		barrier.Done()
-		wg.Wait()
+		finished := make(chan struct{})
+		go func() { wg.Wait(); close(finished) }()
+		select {
+		case <-finished:
+		case <-time.After(150 * time.Second):
+			// a call never returned (e.g. a timeout that never fires): nothing more can be learnt from this process
+			buf := make([]byte, 1<<22)
+			n := runtime.Stack(buf, true)
+			keep := filepath.Join(core.VerifDir(), "replays", "C11")
+			os.MkdirAll(keep, 0o755)
+			dst := filepath.Join(keep, fmt.Sprintf("stuck-%d.log", os.Getpid()))
+			os.WriteFile(dst, buf[:n], 0o644)
+			var running []string
+			for g := range current {
+				if c := current[g].Load(); c > 0 {
+					running = append(running, hOps[c-1].name)
+				}
+			}
+			l.Violate(core.Violation{Kind: "concurrent-call-never-returned", Detail: fmt.Sprintf("round %d (G=%d GOMAXPROCS=%d perturbation=%d) did not finish within 150 s; calls still running: %v; goroutine dump: %s", round, G, procs, mode, running, dst),
+				Witness: core.Witness{Args: map[string]any{"round": round, "G": G, "gomaxprocs": procs, "mode": mode, "seed": r.Seed, "goroutine_dump": dst}}})
+			l.Done()
+			return r.Finish("aborted: a concurrent call never returned", nil, nil)
+		}
 		l.Eval(done.Load())
 		fourGrams(grams)
 		for _, b := range bads {
